@@ -64,8 +64,8 @@ MUTANTS = [
     ('p-norm (a,b) exponents swapped', 'C07', 'rsome/socp.py',
      "                            beta = [b, a - b]", "                            beta = [a - b, b]"),
     ('integrality vector built in the wrong order', 'C07', 'rsome/lp.py',
-     "                                    for item in self.vars + self.auxs])",
-     "                                    for item in self.auxs + self.vars])"),
+     "                vtype[item.first:item.first + item.size] = item_vtype",
+     "                vtype[self.last - item.first - item.size:self.last - item.first] = item_vtype"),
     ('LP dual drops the sign flip of non-positive variables', 'C08', 'rsome/lp.py',
      "                dual_linear[indices_neg, :] = - dual_linear[indices_neg, :]\n                dual_const[indices_neg] = - dual_const[indices_neg]",
      "                pass"),
@@ -139,8 +139,8 @@ MUTANTS = [
      "    indices = np.concatenate((upper.indices, lower.indices))",
      "    indices = np.concatenate((upper.indices, np.sort(lower.indices)))"),
     ('formulation draws from the global RNG', 'C19', 'rsome/lp.py',
-     "            vtype = np.concatenate([np.array([item.vtype] * item.size)",
-     "            np.random.rand()\n            vtype = np.concatenate([np.array([item.vtype] * item.size)"),
+     "            vtype = np.array(['C'] * self.last)",
+     "            np.random.rand()\n            vtype = np.array(['C'] * self.last)"),
     ('check_numeric scales the user array in place', 'C19', 'rsome/subroutines.py',
      "    if isinstance(array, np.ndarray):\n        if not isinstance(array.flat[0], np.number):",
      "    if isinstance(array, np.ndarray) and array.dtype == float:\n        array *= 1.0000001\n    if isinstance(array, np.ndarray):\n        if not isinstance(array.flat[0], np.number):"),
